@@ -114,6 +114,9 @@ func parseContentType(transaction *transaction, headers jws.Headers, _ *jws.Mess
 func parseSignatureParams(transaction *transaction, headers jws.Headers, _ *jws.Message) error {
 	if key, ok := headers.Get(jws.JWKKey); ok {
 		jwkKey := key.(jwk.Key)
+		if isPrivate, err := jwk.IsPrivateKey(jwkKey); err != nil || isPrivate {
+			return transactionValidationError("`jwk` header must contain a public key")
+		}
 		transaction.signingKey = jwkKey
 	}
 	// Get the keyID from the header (not to be confused with the keyID from the embedded key)
